@@ -397,6 +397,10 @@ const EXTREME_PROGS: &[&str] = &[
     // the align operator written only in the glued '=tok' spelling (`=@` is `=` then `@`): the '@' rule applies
     "$T1 $ebp 8 $T0 4 =@ = $eip .raSearch ^ = $esp .raSearch 4 + =",
     "$T1 .raSearchStart 4 $T0 .cbLocals =@ = $eip $T1 ^ = $esp $T1 4 + =",
+    // .raSearch and .raSearchStart are two variables: assigning or undefining one leaves the other as it was
+    ".raSearchStart $ebp 4 + = $eip .raSearch ^ = $esp .raSearch 4 + =",
+    ".raSearch .undef = $eip .raSearchStart ^ = $esp .raSearchStart 4 + =",
+    ".raSearch 0 = $eip .raSearchStart ^ = $esp .raSearch =",
 ];
 
 fn extreme_space(size_menu: &'static [u32]) -> Space {
